@@ -137,6 +137,14 @@ func Solve(query string, timeoutS int, all bool, probes []Probe) SolveResult {
 			t0 := time.Now()
 			_ = cmd.Run()
 			txt := out.String()
+			// drop solver warnings preceding the answer
+			for strings.HasPrefix(txt, "WARNING") || strings.HasPrefix(txt, "(warning") {
+				if i := strings.Index(txt, "\n"); i >= 0 {
+					txt = txt[i+1:]
+				} else {
+					break
+				}
+			}
 			first := strings.TrimSpace(strings.SplitN(txt, "\n", 2)[0])
 			st := "unknown"
 			switch {
